@@ -409,6 +409,8 @@ func checkC04(c *Ctx) {
 	ruleL1(c, "C04.L1")
 	ruleStaleOutParam(c, "C04.f")
 	ruleEOLFlag(c, "C04.g")
+	c.rule("C04.h", "the server's quoted strings never contain CR, LF or NUL (validQuoted byte-class table): every response is whole lines", 514)
+	ruleValidQuoted(c, "C04.h")
 	c.assume("an I/O error returned by a tagged writer means the connection is dead; a second write attempt is not counted as a second completion")
 
 	readCommand := p.Func("imapserver", "Conn", "readCommand")
